@@ -97,6 +97,9 @@ static unsigned h5pset_elink_file_cache_size_size = ADFH_CONFIG_DEFAULT;
 
 /* HDF5 compact storage limit */
 #define CGNS_64KB (64 * 1024)
+/* HDF5 keeps compact data inside a layout message: 4 bytes of message header
+   plus the data must stay below 64 KiB */
+#define CGNS_COMPACT_MAX (CGNS_64KB - 5)
 
 /*
  * ADF names are not allowed to start with a space.
@@ -780,7 +783,7 @@ static int new_str_data(hid_t id, const char *name, const char *value,
   dcpl_id = H5Pcreate(H5P_DATASET_CREATE);
 
   /* compact storage */
-  if(size+1 < CGNS_64KB)
+  if(size+1 <= CGNS_COMPACT_MAX)
     H5Pset_layout(dcpl_id, H5D_COMPACT);
   else {
     H5Pset_layout(dcpl_id, H5D_CONTIGUOUS);
@@ -3049,7 +3052,7 @@ void ADFH_Put_Dimension_Information(const double   id,
   /* Chunked datasets are currently not supported */
 
   /* Compact storage has a dataset size limit of 64 KiB */
-  if(HDF5storage_type == CGIO_COMPACT && dset_size*(hssize_t)dtype_size  < (hssize_t)CGNS_64KB)
+  if(HDF5storage_type == CGIO_COMPACT && dset_size*(hssize_t)dtype_size <= (hssize_t)CGNS_COMPACT_MAX)
     H5Pset_layout(mta_root->g_propdataset, H5D_COMPACT);
   else{
     H5Pset_layout(mta_root->g_propdataset, H5D_CONTIGUOUS);
